@@ -52,6 +52,10 @@ type certs struct {
 	caA, caB       *x509.Certificate
 	caAPEM, caBPEM string
 	byName         map[string][]*x509.Certificate
+	// the CA-identity family: root certificates c<n><k> over two subject names x
+	// two keys (plus c11r, c11 renewed), and one client certificate l<n><k> per root
+	cas      map[string]*x509.Certificate
+	caChains []string // names (in byName) of the chains of that family
 }
 
 var C certs
@@ -157,6 +161,63 @@ func initCerts() {
 		"none": nil, "F": {C.F}, "FA": {C.FA}, "A1": {C.A1}, "B1": {C.B1}, "U": {C.U}, "Aexp": {C.Aexp}, "Asrv": {C.Asrv},
 		"A1+caA": {C.A1, C.caA}, "spoofF+F": {spoofF, C.F}, "spoofA+A1": {spoofA, C.A1},
 	}
+	initCAIdentity(nb, na)
+}
+
+// mkNamed is mk with a full subject name (mk names by common name only).
+func mkNamed(subj pkix.Name, pub *ecdsa.PublicKey, parent *x509.Certificate, pkey *ecdsa.PrivateKey, isCA bool, eku []x509.ExtKeyUsage, nb, na time.Time) *x509.Certificate {
+	serial, _ := rand.Int(rand.Reader, big.NewInt(1<<62))
+	t := &x509.Certificate{SerialNumber: serial, Subject: subj, NotBefore: nb, NotAfter: na,
+		BasicConstraintsValid: true, IsCA: isCA, ExtKeyUsage: eku, KeyUsage: x509.KeyUsageDigitalSignature}
+	if isCA {
+		t.KeyUsage = x509.KeyUsageCertSign
+	}
+	p := parent
+	if p == nil {
+		p = t
+	}
+	der, err := x509.CreateCertificate(rand.Reader, t, p, pub, pkey)
+	if err != nil {
+		panic(err)
+	}
+	c, _ := x509.ParseCertificate(der)
+	return c
+}
+
+// What identifies an issuing CA is the pair (subject name, public key): RFC 5280
+// 6.1.3 (a) accepts a certificate under a trust anchor when its issuer name is the
+// anchor's name AND its signature verifies with the anchor's key. The alphabet is
+// therefore the full product of two names and two keys, so that every pair of CAs
+// is one of: unrelated, namesakes (same subject, other key), re-issued (same key,
+// other subject), and - c11r - the same CA with a renewed certificate.
+func initCAIdentity(nb, na time.Time) {
+	names := map[int]pkix.Name{
+		1: {CommonName: "Build Client CA", Organization: []string{"Example"}},
+		2: {CommonName: "Release Client CA", Organization: []string{"Example"}},
+	}
+	keys := map[int]*ecdsa.PrivateKey{}
+	for k := 1; k <= 2; k++ {
+		keys[k], _ = ecdsa.GenerateKey(elliptic.P256(), rand.Reader)
+	}
+	client := []x509.ExtKeyUsage{x509.ExtKeyUsageClientAuth}
+	C.cas = map[string]*x509.Certificate{}
+	for n := 1; n <= 2; n++ {
+		for k := 1; k <= 2; k++ {
+			id := fmt.Sprintf("%d%d", n, k)
+			ca := mkNamed(names[n], &keys[k].PublicKey, nil, keys[k], true, nil, nb, na)
+			C.cas["c"+id] = ca
+			lk, _ := ecdsa.GenerateKey(elliptic.P256(), rand.Reader)
+			leaf := mkNamed(pkix.Name{CommonName: "build job " + id}, &lk.PublicKey, ca, keys[k], false, client, nb, na)
+			C.byName["l"+id] = []*x509.Certificate{leaf}
+			C.byName["l"+id+"+c"+id] = []*x509.Certificate{leaf, ca}
+			C.caChains = append(C.caChains, "l"+id, "l"+id+"+c"+id)
+		}
+	}
+	C.cas["c11r"] = mkNamed(names[1], &keys[1].PublicKey, nil, keys[1], true, nil, nb.Add(-48*time.Hour), na.Add(24*time.Hour))
+	if !bytes.Equal(C.cas["c11"].RawSubject, C.cas["c12"].RawSubject) || !bytes.Equal(C.cas["c11"].RawSubjectPublicKeyInfo, C.cas["c21"].RawSubjectPublicKeyInfo) ||
+		bytes.Equal(C.cas["c11"].Raw, C.cas["c11r"].Raw) || !bytes.Equal(C.cas["c11"].RawSubject, C.cas["c11r"].RawSubject) {
+		panic("CA identity fixtures are not what they are meant to be")
+	}
 }
 
 // ---------- configuration family ----------
@@ -174,6 +235,54 @@ type cfgSpec struct {
 	Keys    []keySpec
 	Trusted []string
 	Policy  bool
+	// further clients recognised by issuing CA, each with its own bundle of CA
+	// certificates (names of C.cas); the CA-identity family
+	CAs []caClient `json:"CAs,omitempty"`
+}
+
+type caClient struct {
+	Name   string   `json:"name"`
+	Bundle []string `json:"bundle"`
+	Roles  []string `json:"roles"`
+}
+
+func (cc caClient) certs() []*x509.Certificate {
+	var out []*x509.Certificate
+	for _, n := range cc.Bundle {
+		out = append(out, C.cas[n])
+	}
+	return out
+}
+
+// caEntry is one client entry recognised by issuing CA: its key in the loaded
+// client table, its nickname and its own CA certificates.
+type caEntry struct {
+	key, nick string
+	roles     []string
+	bundle    []*x509.Certificate
+	what      string
+}
+
+func (cs cfgSpec) caEntries() []caEntry {
+	var out []caEntry
+	if cs.A != nil {
+		out = append(out, caEntry{"caa", "A", cs.A, []*x509.Certificate{C.caA}, "[ca A]"})
+	}
+	if cs.B != nil {
+		out = append(out, caEntry{"cab", "B", cs.B, []*x509.Certificate{C.caB}, "[ca B]"})
+	}
+	for _, cc := range cs.CAs {
+		out = append(out, caEntry{strings.ToLower(cc.Name), cc.Name, cc.Roles, cc.certs(), fmt.Sprint(cc.Bundle)})
+	}
+	return out
+}
+
+func (cc caClient) pem() string {
+	var s string
+	for _, n := range cc.Bundle {
+		s += pemOf(C.cas[n])
+	}
+	return s
 }
 
 func (c cfgSpec) String() string {
@@ -278,6 +387,9 @@ func (cs cfgSpec) build(auditFile string) *config.Config {
 	if cs.B != nil {
 		cfg.Clients["caB"] = &config.ClientConfig{Nickname: "B", Roles: cs.B, Certificate: C.caBPEM}
 	}
+	for _, cc := range cs.CAs {
+		cfg.Clients[cc.Name] = &config.ClientConfig{Nickname: cc.Name, Roles: cc.Roles, Certificate: cc.pem()}
+	}
 	for _, k := range cs.Keys {
 		kc := &config.KeyConfig{Hide: k.Hide}
 		switch k.Kind {
@@ -293,6 +405,68 @@ func (cs cfgSpec) build(auditFile string) *config.Config {
 		cfg.Keys[k.Name] = kc
 	}
 	return cfg
+}
+
+// yaml writes the configuration the way an installation has it: a YAML file in
+// the layout of doc/relic.yml (CA certificates as block scalars), to be loaded
+// with config.ReadFile. Written out by hand, not marshalled from relic's structs.
+func (cs cfgSpec) yaml(auditFile string) string {
+	var b strings.Builder
+	list := func(xs []string) string {
+		q := make([]string, len(xs))
+		for i, x := range xs {
+			q[i] = "'" + x + "'"
+		}
+		return "[" + strings.Join(q, ", ") + "]"
+	}
+	b.WriteString("tokens:\n  tok:\n    type: " + faketoken.Type + "\n    pin: ''\n")
+	b.WriteString("keys:\n")
+	for _, k := range cs.Keys {
+		b.WriteString("  " + k.Name + ":\n")
+		switch k.Kind {
+		case "real":
+			b.WriteString("    token: tok\n    roles: " + list(k.Roles) + "\n")
+			b.WriteString("    keyfile: " + filepath.Join(relicx.KeyDir, "p256A.key") + "\n")
+			b.WriteString("    x509certificate: " + filepath.Join(relicx.KeyDir, "p256A.chain.crt") + "\n")
+		case "alias":
+			b.WriteString("    alias: " + k.Alias + "\n")
+		}
+		// a key without token and roles still needs a mapping node
+		b.WriteString(fmt.Sprintf("    hide: %v\n", k.Hide))
+	}
+	b.WriteString("server:\n  listen: ':6363'\n")
+	if len(cs.Trusted) > 0 {
+		b.WriteString("  trustedproxies: " + list(cs.Trusted) + "\n")
+	}
+	if cs.Policy {
+		b.WriteString("  policyurl: http://opa.invalid/v1/data/relic\n")
+	}
+	if auditFile != "" {
+		b.WriteString("auditfile: " + auditFile + "\n")
+	}
+	b.WriteString("clients:\n")
+	client := func(key, nick string, roles []string, pemText string) {
+		b.WriteString("  '" + key + "':\n    nickname: " + nick + "\n    roles: " + list(roles) + "\n")
+		if pemText != "" {
+			b.WriteString("    certificate: |\n")
+			for _, line := range strings.Split(strings.TrimRight(pemText, "\n"), "\n") {
+				b.WriteString("      " + line + "\n")
+			}
+		}
+	}
+	if cs.F != nil {
+		client(strings.ToUpper(C.fpKeyFP), "F", cs.F, "")
+	}
+	if cs.A != nil {
+		client("caA", "A", cs.A, C.caAPEM)
+	}
+	if cs.B != nil {
+		client("caB", "B", cs.B, C.caBPEM)
+	}
+	for _, cc := range cs.CAs {
+		client(cc.Name, cc.Name, cc.Roles, cc.pem())
+	}
+	return b.String()
 }
 
 // ---------- requests ----------
@@ -443,7 +617,145 @@ func recognised(cs cfgSpec, chain []*x509.Certificate) []client {
 	}
 	try(C.caA, "A", cs.A)
 	try(C.caB, "B", cs.B)
+	for _, cc := range cs.CAs {
+		if issuedUnder(cc.certs(), chain) {
+			out = append(out, client{cc.Name, cc.Roles})
+		}
+	}
 	return out
+}
+
+// issuedUnder: the reference for "a client entry named by issuing CA recognises
+// this chain": the first certificate's issuer name is the subject of a CA of THIS
+// entry's bundle and its signature verifies with that CA's key (RFC 5280 6.1.3
+// (a)(1),(a)(4)), it is within its validity period and it is a client-
+// authentication certificate. Other entries' bundles play no part.
+func issuedUnder(bundle []*x509.Certificate, chain []*x509.Certificate) bool {
+	if len(chain) == 0 {
+		return false
+	}
+	leaf := chain[0]
+	now := time.Now()
+	if now.Before(leaf.NotBefore) || now.After(leaf.NotAfter) {
+		return false
+	}
+	clientAuth := len(leaf.ExtKeyUsage) == 0
+	for _, u := range leaf.ExtKeyUsage {
+		if u == x509.ExtKeyUsageClientAuth || u == x509.ExtKeyUsageAny {
+			clientAuth = true
+		}
+	}
+	if !clientAuth {
+		return false
+	}
+	for _, ca := range bundle {
+		if bytes.Equal(leaf.RawIssuer, ca.RawSubject) && ca.CheckSignature(leaf.SignatureAlgorithm, leaf.RawTBSCertificate, leaf.Signature) == nil {
+			return true
+		}
+	}
+	return false
+}
+
+// relationTo names how the issuer of a chain's first certificate relates to the
+// CAs of a bundle: the class a violation is filed under.
+func relationTo(bundle []*x509.Certificate, chain []*x509.Certificate) string {
+	if len(chain) == 0 {
+		return "no-certificate"
+	}
+	leaf := chain[0]
+	sameName, sameKey := false, false
+	for _, ca := range bundle {
+		n := bytes.Equal(leaf.RawIssuer, ca.RawSubject)
+		k := ca.CheckSignature(leaf.SignatureAlgorithm, leaf.RawTBSCertificate, leaf.Signature) == nil
+		switch {
+		case n && k:
+			return "own-ca"
+		case n:
+			sameName = true
+		case k:
+			sameKey = true
+		}
+	}
+	switch {
+	case sameName && sameKey:
+		return "same-name-other-key+same-key-other-name"
+	case sameName:
+		return "same-name-other-key"
+	case sameKey:
+		return "same-key-other-name"
+	}
+	return "unrelated-ca"
+}
+
+// chainNames: every chain of the alphabet, in a fixed order.
+func chainNames() []string {
+	var out []string
+	for n, c := range C.byName {
+		if len(c) > 0 {
+			out = append(out, n)
+		}
+	}
+	sort.Strings(out)
+	return out
+}
+
+// checkReference compares the reference with the standard library's path
+// validation against a pool holding one bundle and nothing else, over every
+// bundle and chain of the alphabet. A harness whose two notions of "issued under
+// this entry's CA" differ must not judge anything (harness error, exit 2).
+func checkReference() {
+	bundles := [][]*x509.Certificate{{C.caA}, {C.caB}}
+	for _, b := range caBundles {
+		bundles = append(bundles, caClient{Bundle: b}.certs())
+	}
+	for _, b := range bundles {
+		for _, ch := range chainNames() {
+			pool := x509.NewCertPool()
+			for _, c := range b {
+				pool.AddCert(c)
+			}
+			ip := x509.NewCertPool()
+			for _, c := range C.byName[ch][1:] {
+				ip.AddCert(c)
+			}
+			_, err := C.byName[ch][0].Verify(x509.VerifyOptions{Roots: pool, Intermediates: ip, KeyUsages: []x509.ExtKeyUsage{x509.ExtKeyUsageClientAuth}})
+			if (err == nil) != issuedUnder(b, C.byName[ch]) {
+				fmt.Printf("HARNESS-ERROR: reference disagrees with crypto/x509 on chain %s: %v\n", ch, err)
+				os.Exit(2)
+			}
+		}
+	}
+}
+
+// entryDecisions: on a loaded configuration, every client entry named by issuing
+// CA is asked about every chain of the alphabet; it must recognise exactly the
+// chains issued under its own bundle. This decides "the set of entries that
+// recognise this caller" entry by entry, so no iteration order of the client
+// table takes part in the verdict.
+func entryDecisions(cs cfgSpec, cfg *config.Config, ci string, chains []string, replay func(ch string) any) {
+	for _, e := range cs.caEntries() {
+		cl := cfg.Clients[e.key]
+		if cl == nil {
+			run.Violation("ca-identity:client-entry-lost", fmt.Sprintf("config %s: no client entry %q after loading", cs, e.key), cs)
+			continue
+		}
+		for _, ch := range chains {
+			want := issuedUnder(e.bundle, C.byName[ch])
+			got, merr := cl.Match(C.byName[ch])
+			run.Eval(1)
+			rel := relationTo(e.bundle, C.byName[ch])
+			switch {
+			case got == want:
+				run.Outcome(fmt.Sprintf("ca-entry:%s:%v", rel, got))
+			case got:
+				run.Violation("ca-identity:client-entry-recognises-certificate-of:"+rel,
+					fmt.Sprintf("config %s: the entry %s (CA bundle %s) recognises the chain %s, which is not a valid client certificate of a CA of that bundle (%s)", cs, e.nick, e.what, ch, rel), replay(ch))
+			default:
+				run.Violation("ca-identity:client-entry-refuses-certificate-of-its-own-ca",
+					fmt.Sprintf("config %s: the entry %s (CA bundle %s) does not recognise the chain %s issued by one of its CAs (%v)", cs, e.nick, e.what, ch, merr), replay(ch))
+			}
+		}
+	}
 }
 
 func shares(a, b []string) bool {
@@ -727,14 +1039,18 @@ func main() {
 		finish()
 	}
 	initCerts()
+	checkReference()
 	si, sn := vlib.ShardIndex()
 	dir, _ := os.MkdirTemp("", "c04-")
 	defer os.RemoveAll(dir)
 	auditFile := filepath.Join(dir, "audit.log")
 	cfgs := enumConfigs(run.Thorough())
 	nreq := 0
+	// development switch: C04_PHASE=main|malformed|policy|caid runs that part only
+	phase := func(name string) bool { p := os.Getenv("C04_PHASE"); return p == "" || p == name }
+	allChains := chainNames()
 	for ci, cs := range cfgs {
-		if ci%sn != si {
+		if ci%sn != si || !phase("main") {
 			continue
 		}
 		faketoken.Reset()
@@ -750,6 +1066,9 @@ func main() {
 			continue
 		}
 		h := srv.Handler()
+		entryDecisions(cs, cfg, fmt.Sprint(ci), allChains, func(ch string) any {
+			return map[string]any{"config": cs, "chain": ch, "chain_pem": chainPEM(ch)}
+		})
 		reqs := enumRequests(cs, run.Thorough())
 		nreq = len(reqs)
 		run.AddStates(1)
@@ -784,22 +1103,182 @@ func main() {
 		}
 		srv.Close()
 	}
+	if phase("caid") {
+		caIdentityPhase(dir, auditFile, si, sn)
+	}
 	if si == 0 {
-		malformed()
-		policyPhase(auditFile)
+		if phase("malformed") {
+			malformed()
+		}
+		if phase("policy") {
+			policyPhase(auditFile)
+		}
 		run.Set("requests_per_config", nreq)
 		run.Set("configs", len(cfgs))
+		run.Set("bounds", map[string]any{
+			"clients":                        "F by key fingerprint, A and B by CA (unrelated CAs), roles over {r1,r2}; CA identity family: 2 entries x 8 bundles each over 2 subject names x 2 keys + 1 renewed certificate",
+			"keys":                           "3 names; real/alias/dangling alias/alias of alias/hidden/no token",
+			"ca_identity_chains":             len(C.caChains),
+			"chains_asked_of_every_ca_entry": len(allChains),
+		})
 	}
 	os.RemoveAll(dir) // finish exits the process: deferred calls do not run
 	finish()
 }
 
 func finish() {
-	run.Rule("every configuration of the family (clients F by fingerprint / A,B by CA x role sets; keys ka real(roles,hide), kb {absent, alias->ka, alias->missing, alias->alias, hidden real, no-token, hidden alias}, kc {absent, alias->kb, real}; trusted-proxy lists) x every request (endpoint x key name x peer address x TLS chain x X-Forwarded-For x Ssl-Client-Cert) is sent to the real handler; states = configurations, transitions = requests. distinct_nontrivial = (config,request) pairs that present some identity evidence")
+	run.Rule("every configuration of the family (clients F by fingerprint / A,B by CA x role sets; keys ka real(roles,hide), kb {absent, alias->ka, alias->missing, alias->alias, hidden real, no-token, hidden alias}, kc {absent, alias->kb, real}; trusted-proxy lists) x every request (endpoint x key name x peer address x TLS chain x X-Forwarded-For x Ssl-Client-Cert) is sent to the real handler; states = configurations, transitions = requests. distinct_nontrivial = (config,request) pairs that present some identity evidence. CA identity family: an issuing CA is identified by (subject name, public key), so the CA alphabet is the product of two names x two keys (unrelated CAs, namesakes = same subject DN with another key, re-issued = same key under another subject) plus one renewed certificate (same name and key, another serial and validity); every ordered pair of client entries whose bundles are drawn from {each single CA, the renewed one, [c11,c22], [c12,c21], [c22,c11]} (8 x 8), with roles (r1, r2) and (r1, r1+r2), keys of each role set (r1, r2, r1+r2), is written out as a YAML file (CA certificates as block scalars, the layout of doc/relic.yml) and loaded with config.ReadFile; callers = a client certificate issued by each of the four CAs, alone and followed by its CA certificate, over TLS from a non-proxy peer and forwarded (Ssl-Client-Cert + X-Forwarded-For) by the configured proxy, and nobody; every endpoint x key name (listing included). Decided twice: (1) per entry - on every loaded configuration (of this family AND of the main family) every CA-named client entry's Match is asked about every chain of the whole alphabet and must recognise exactly the chains whose first certificate is a valid client certificate issued (issuer name = CA subject and signature verifies with the CA key, RFC 5280 6.1.3) by a CA of that entry's own bundle; (2) at the handler - every request is asked several times on each of several fresh loads and every single answer must be one the reference allows")
 	run.Assume("a trusted peer that sends no X-Forwarded-For chain may be identified by either its TLS chain or its header certificate (the statement only constrains untrusted peers)")
-	run.Assume("when a certificate matches several CA clients with different roles the outcome may follow any of them (Go map order)")
+	run.Assume("when a certificate is issued under the bundles of several CA clients (the same CA, or a renewed certificate of it, named by two entries) the outcome may follow any of THOSE entries (Go map order); an entry whose bundle does not hold the issuer (same subject DN but another key, same key but another subject) is not among them and none of its roles may ever show")
+	run.Assume("which entry answers a request depends on Go's randomised map iteration when more than one entry recognises the caller, and repetition cannot be argued to reach every order (the runtime picks the starting slot; with two entries one order may have probability 1/8 per walk): therefore the verdict on 'which entries recognise this caller' is NOT taken from repeated requests but from asking each entry of the loaded configuration on its own (deterministic, order plays no part); the repeated handler requests (every answer must be an allowed one, none is required to differ) add the end-to-end view and can only ever report an answer that is wrong in itself")
+	run.Assume("the reference 'issued under this entry's bundle' is compared at start-up with crypto/x509 path validation against a pool holding that bundle only, over every bundle x chain of the alphabet; a disagreement is a harness error, not a verdict")
 	run.Assume("a name whose own entry or whose alias target is hidden counts as hidden for listings")
 	run.Finish()
+}
+
+// ---------- CA identity: which entry is entitled to a CA-issued certificate ----------
+
+// caBundles: what one client entry's `certificate` may hold - each single CA of
+// the (name x key) product, the renewed certificate, and bundles of two.
+var caBundles = [][]string{
+	{"c11"}, {"c12"}, {"c21"}, {"c22"}, {"c11r"},
+	{"c11", "c22"}, {"c12", "c21"}, {"c22", "c11"},
+}
+
+func enumCAConfigs() []cfgSpec {
+	keys := []keySpec{{Name: "ka", Kind: "real", Roles: r1}, {Name: "kb", Kind: "real", Roles: r2}, {Name: "kc", Kind: "real", Roles: r12}}
+	var out []cfgSpec
+	for _, bx := range caBundles {
+		for _, by := range caBundles {
+			// disjoint role sets, and one entry entitled to more than the other
+			// (the other way round is the pair of bundles swapped)
+			for _, ry := range [][]string{r2, r12} {
+				out = append(out, cfgSpec{Keys: keys, Trusted: []string{"10.1.2.3"},
+					CAs: []caClient{{Name: "teamx", Bundle: bx, Roles: r1}, {Name: "teamy", Bundle: by, Roles: ry}}})
+			}
+		}
+	}
+	return out
+}
+
+// enumCARequests: every endpoint and key name, asked by every CA-issued caller
+// (alone and followed by its CA certificate), directly over TLS from a peer that
+// is no proxy and forwarded by the configured proxy; and by nobody.
+func enumCARequests() []reqSpec {
+	var out []reqSpec
+	type ep struct{ e, k string }
+	eps := []ep{{"home", ""}, {"list", ""}}
+	for _, k := range []string{"ka", "kb", "kc", "unknown"} {
+		eps = append(eps, ep{"getkey", k}, ep{"sign", k})
+	}
+	eps = append(eps, ep{"sign", ""})
+	for _, e := range eps {
+		out = append(out, reqSpec{Endpoint: e.e, Key: e.k, Peer: "192.0.2.9:555", TLS: "none", Hdr: "none"})
+		for _, ch := range C.caChains {
+			out = append(out, reqSpec{Endpoint: e.e, Key: e.k, Peer: "192.0.2.9:555", TLS: ch, Hdr: "none"})
+			out = append(out, reqSpec{Endpoint: e.e, Key: e.k, Peer: "10.1.2.3:555", TLS: "none", XFF: "198.51.100.7", Hdr: ch})
+		}
+	}
+	return out
+}
+
+func caIdentityPhase(dir, auditFile string, si, sn int) {
+	loads, repeats := 2, 4
+	if run.Thorough() {
+		loads, repeats = 4, 16
+	}
+	cfgs := enumCAConfigs()
+	reqs := enumCARequests()
+	yamlPath := filepath.Join(dir, "relic.yml")
+	for ci, cs := range cfgs {
+		if ci%sn != si {
+			continue
+		}
+		run.AddStates(1)
+		for l := 0; l < loads; l++ {
+			faketoken.Reset()
+			if err := os.WriteFile(yamlPath, []byte(cs.yaml(auditFile)), 0o600); err != nil {
+				panic(err)
+			}
+			cfg, err := config.ReadFile(yamlPath)
+			if err != nil {
+				run.Violation("wellformed-config-rejected", cs.String()+": "+err.Error(), map[string]any{"config": cs, "yaml": cs.yaml(auditFile)})
+				break
+			}
+			// (1) per entry, deterministic (see entryDecisions)
+			entryDecisions(cs, cfg, fmt.Sprintf("caid%d", ci), chainNames(), func(ch string) any {
+				return map[string]any{"config": cs, "chain": ch, "yaml": cs.yaml(auditFile), "chain_pem": chainPEM(ch)}
+			})
+			// (2) the handler: every request, several times on this one loaded
+			// configuration; no answer may be one that only a non-entitled entry
+			// would give
+			relicx.Use(cfg)
+			srv, err := server.New(cfg)
+			if err != nil {
+				run.Violation("wellformed-config-rejected", cs.String()+": "+err.Error(), cs)
+				break
+			}
+			h := srv.Handler()
+			for _, r := range reqs {
+				alts, ips := expect(cs, r)
+				for rep := 0; rep < repeats; rep++ {
+					obs := execute(h, r, auditFile)
+					run.Eval(1)
+					run.AddTransitions(1)
+					ok := false
+					var why []string
+					for _, v := range alts {
+						m, w := matches(cs, r, v, obs, ips)
+						if m {
+							ok = true
+							run.Outcome("caid:" + r.Endpoint + ":" + v.class)
+							break
+						}
+						why = append(why, w)
+					}
+					if ok {
+						continue
+					}
+					ch := r.TLS
+					if ch == "none" {
+						ch = r.Hdr
+					}
+					// how the caller's issuer relates to the entries NOT entitled to it
+					rels := map[string]bool{}
+					for _, e := range cs.caEntries() {
+						if !issuedUnder(e.bundle, C.byName[ch]) {
+							rels[relationTo(e.bundle, C.byName[ch])] = true
+						}
+					}
+					var rs []string
+					for x := range rels {
+						rs = append(rs, x)
+					}
+					sort.Strings(rs)
+					rel := strings.Join(rs, ",")
+					run.Violation("ca-identity:"+rel+":"+violationKey(cs, r, obs, alts),
+						fmt.Sprintf("config %s (loaded from YAML, load %d, asked %d times) request %+v: got status %d touches %d; %s", cs, l, repeats, r, obs.Status, obs.Touches, strings.Join(why, " / ")),
+						map[string]any{"config": cs, "request": r, "status": obs.Status, "body": string(obs.Body), "yaml": cs.yaml(auditFile), "chain_pem": chainPEM(ch)})
+				}
+				if l == 0 && (r.TLS != "none" || r.Hdr != "none") {
+					run.Distinct(fmt.Sprintf("caid|%d|%v", ci, r))
+				}
+			}
+			srv.Close()
+		}
+	}
+	if si == 0 {
+		run.Set("ca_identity", map[string]any{"configs": len(cfgs), "requests_per_config": len(reqs), "loads_per_config": loads, "asks_per_request_and_load": repeats,
+			"entry_decisions_per_load": 2 * len(chainNames())})
+	}
+}
+
+func chainPEM(name string) string {
+	var s string
+	for _, c := range C.byName[name] {
+		s += pemOf(c)
+	}
+	return s
 }
 
 // malformed: configurations the statement calls malformed must be rejected at
